@@ -107,6 +107,20 @@ CHECKS.append({
             "only and otherwise checked on the implementation; multi-band data flow is under C15.",
 })
 
+CHECKS.append({
+    "property_id": "C11",
+    "design_ref": "DESIGN.md 5 (C11)",
+    "technique": "Coq proof (real analysis over R, field/lra) about the helper definitions regenerated from priors.py + interval-arithmetic correspondence "
+                 "with log_prob / support / affine parameters / reparam Jacobian of the real prior objects",
+    "text": "Six theorems (Props/C11.v) for all loc, scale>0, bounds and points, and for ANY CDF Phi: Gaussian helper = N(loc,scale); uniform helper has "
+            "support [low,high] and density 1/(high-low); truncated helper has support exactly [low,high] (one-sided with None) and the textbook density; "
+            "TransformReparam exposes loc+scale*base and shifts the density by the constant -ln|scale|; storage under name+suffix.  Helper definitions "
+            "are re-extracted each run and compared inside Coq with what the real numpyro objects compute.",
+    "note": "Trusted: Coq kernel, Interval, Reals axioms; translator unit PriorHelpers; numpyro TransformedDistribution/AffineTransform/TransformReparam "
+            "semantics as modelled (tied by correspondence); the normal CDF is abstract so truncated normalisers are compared via differences; float32 "
+            "conditioning in far tails only through the implementation-side scipy oracle at 1e-2.",
+})
+
 _PENDING = "check not built yet in this session (build order in DESIGN.md section 9); will be claimed once its Coq model, theorems and tie exist"
 NOT_APPLICABLE = [
     {"property_id": "C%02d" % i, "reason": _PENDING}
